@@ -486,13 +486,13 @@ def oracle_prefix(job, mids, impl2, counters, fails):
     rho, sym = job["rho"], job["sym"]
     for (i, t, mid, D), o in zip(mids, impl2):
         cls, s1, s2 = job["pairs"][i]
+        tol = rho * 4 * EPS * (1 + D / rho)
         rec = lambda what: fails.append(dict(space="Dubins-sym" if sym else "Dubins", clause="prefix", input_class=cls, what=what, pair=i,
-                                             rho=rho, s1=s1, s2=s2, t=t))
+                                             rho=rho, s1=s1, s2=s2, t=t, mid=mid, D=D, tol=tol))
         if not o.startswith("d=") or o == "d=none":
             rec("distance(s1, interpolate(t)) printed %r" % o)
             continue
         dm = F(o[2:])
-        tol = rho * 4 * EPS * (1 + D / rho)
         counters["prefix_checked"] += 1
         if dm > t * D + tol:
             rec("distance(s1, interpolate(s1,s2,t=%.6g)) = %.9g > t*distance = %.9g (excess %.3g, tol %.3g)" % (t, dm, t * D, dm - t * D, tol))
@@ -671,12 +671,50 @@ def oracle_rs_prefix(job, mids, impl2, counters, fails):
         tol = rho * 4 * EPS * (1 + D / rho)
         counters["rs_prefix_checked"] += 1
         if dm > t * D + tol:
-            fails.append(dict(space="ReedsShepp", clause="prefix", input_class=cls, pair=i, rho=rho, s1=s1, s2=s2, t=t,
+            fails.append(dict(space="ReedsShepp", clause="prefix", input_class=cls, pair=i, rho=rho, s1=s1, s2=s2, t=t, mid=mid, D=D, tol=tol,
                               what="distance(s1, interpolate(t=%.6g)) = %.9g > t*distance = %.9g (excess %.3g)" % (t, dm, t * D, dm - t * D)))
         elif dm < t * D - tol:
-            fails.append(dict(space="ReedsShepp", clause="prefix", input_class=cls, pair=i, rho=rho, s1=s1, s2=s2, t=t,
+            fails.append(dict(space="ReedsShepp", clause="prefix", input_class=cls, pair=i, rho=rho, s1=s1, s2=s2, t=t, mid=mid, D=D, tol=tol,
                               what="distance(s1, interpolate(t=%.6g)) = %.9g < t*distance = %.9g: the reported curve was not shortest (by %.3g)" %
                                    (t, dm, t * D, t * D - dm)))
+
+
+# ------------------------------------------------------------------------------ diagnosis of prefix failures
+PERT = [1e-9, -1e-9, 1e-7, -1e-7, 2e-6, -2e-6]
+
+
+def diagnose_prefix(ck, hbin, job, pf, rs):
+    """For each prefix failure: does a perturbation of the interpolated pose by <= 2e-6 (the code's own
+    DUBINS_EPS / RS_EPS scale) restore distance == t*distance?  Then the interpolated pose sits on a
+    discontinuity of the *computed* distance (`cause = on-discontinuity`: a degenerate word with a zero-length
+    segment accepted or rejected by rounding); otherwise the failure is `persistent` (a systematically
+    non-minimal word)."""
+    pf = [f for f in pf if "mid" in f]
+    if not pf:
+        return
+    script = [job["hdr"]]
+    idx = []
+    for n, f in enumerate(pf):
+        for ax in range(3):
+            for e in PERT:
+                m = list(f["mid"])
+                m[ax] += e * (job["rho"] if ax < 2 else 1.0)
+                m[2] = wrap(m[2])
+                script.append(("both" if rs else "dist") + " %s %s" % (pose_tokens(f["s1"]), pose_tokens(m)))
+                idx.append((n, abs(e)))
+    out, _ab = run_resilient(ck, hbin, script)
+    ok = set()
+    for (n, e), o in zip(idx, out):
+        try:
+            v = F(o.split()[0].split("=")[1])
+        except Exception:
+            continue
+        f = pf[n]
+        if abs(v - f["t"] * f["D"]) <= f["tol"] + 4 * job["rho"] * e:
+            ok.add(n)
+    for n, f in enumerate(pf):
+        f["cause"] = "on-discontinuity" if n in ok else "persistent"
+        f["what"] += " [cause: %s]" % f["cause"]
 
 
 # ------------------------------------------------------------------------------ the check
@@ -710,6 +748,8 @@ def compare(ck, impl, model, script, tag):
 
 def report_fail(ck, f, script_for=None):
     record = {"engine": "dubins", "space": f["space"], "clause": f["clause"], "input_class": f["input_class"]}
+    if "cause" in f:
+        record["cause"] = f["cause"]
     ck.report(record, script=script_for, expected=None, observed=f, engine="dubins")
     ck.log("property failure [%s/%s/%s]: %s" % (f["space"], f["clause"], f["input_class"], f["what"]))
 
@@ -791,6 +831,7 @@ def run(ck):
             if d2 is not None:
                 dis.append((job["tag"] + "/prefix", s2, d2, impl2, model2))
             oracle_prefix(job, mids, impl2, c, fl)
+            diagnose_prefix(ck, hbin, job, [f for f in fl if f["clause"] == "prefix"], False)
             aborts = aborts + ab2
         c["ops"] += len(job["script"]) - 1 + len(s2) - 1
         return job, c, fl, dis, aborts
@@ -805,6 +846,7 @@ def run(ck):
         if len(s2) > 1:
             impl2, ab2 = run_resilient(ck, hbin, s2)
             oracle_rs_prefix(job, mids, impl2, c, fl)
+            diagnose_prefix(ck, hbin, job, [f for f in fl if f["clause"] == "prefix"], True)
             aborts = aborts + ab2
         c["rs_ops"] += len(job["script"]) - 1 + len(s2) - 1
         return job, c, fl, [], aborts
@@ -827,7 +869,7 @@ def run(ck):
         ck.count("scripts:corpus")
 
     rhos = [1.0, 0.25, 3.7, 10.0] if quick else [1.0, 0.25, 0.5, 1.5, 3.7, 10.0, 0.01, 250.0]
-    npairs, nts = (260, 4) if quick else (2500, 16)
+    npairs, nts = (2000, 4) if quick else (12000, 16)
     jobs = []
     for rho in rhos:
         for sym in (False, True):
@@ -843,6 +885,9 @@ def run(ck):
                 counters[k] = max(counters[k], v)
         for f in fl:
             f["_job"] = job
+        for k, what in aborts[:3]:
+            ck.log("the real code aborted in %s at op %d: %s" % (job["tag"], k, what.replace("\n", " ")[-300:]))
+            ck.count("aborts")
         fails += fl
         disagreements += dis
         ck.traces_validated += 2
@@ -877,8 +922,8 @@ def run(ck):
     seen = set()
     nrep = 0
     for f in fails:
-        key = (f["space"], f["clause"], f["input_class"])
-        ck.count("oracle_fail:%s/%s/%s" % key)
+        key = (f["space"], f["clause"], f["input_class"], f.get("cause", "-"))
+        ck.count("oracle_fail:%s/%s/%s/%s" % key)
         if key in seen:
             continue
         seen.add(key)
